@@ -182,9 +182,21 @@ class _StripCtx(ast.NodeTransformer):
         return node
 
 
+class _DropEmptyPieces(ast.NodeTransformer):
+    """an empty-string Constant inside a JoinedStr contributes nothing to the string; CPython's
+    own parser inserts such pieces inconsistently (e.g. `f"{x:{{}}}"` gets one in front of the
+    nested field of the spec, `f"{x:{ {}}}"` does not), so they are not part of the structure"""
+
+    def visit_JoinedStr(self, node):
+        self.generic_visit(node)
+        node.values = [v for v in node.values if not (isinstance(v, ast.Constant) and v.value == "")]
+        return node
+
+
 def norm_dump(node):
     node = copy.deepcopy(node)
     node = _StripCtx().visit(node)
+    node = _DropEmptyPieces().visit(node)
     return ast.dump(node)
 
 
